@@ -280,6 +280,116 @@ def task_precip(systems):
     return res
 
 
+REPLAY_CONDSEL = """
+import itertools
+from fractions import Fraction
+import numpy as np
+from chempy import Equilibrium, Species
+from chempy.equilibria import EqSystem
+from chempy._eqsys import NumSysLin, NumSysLog
+eq_strs = %(eqs)r
+x = %(x)s
+Kv = %(K)s
+p0 = %(p0)s
+eqs = [Equilibrium.from_string(s) for s in eq_strs]
+for e, k in zip(eqs, Kv): e.param = k
+keys = []
+for e in eqs:
+    for k in itertools.chain(e.reac, e.prod):
+        if k not in keys: keys.append(k)
+es = EqSystem(eqs, [Species.from_formula(k) for k in keys])
+xv = np.array([x[k] for k in keys], dtype=object)
+pv = np.array(list(p0) + list(Kv), dtype=object)
+ptr = es.phase_transfer_reaction_idxs()
+bad = []
+systems = [("get_neqsys_conditional_chained", es.get_neqsys_conditional_chained(NumSys=(NumSysLin, NumSysLog)), NumSysLin)]
+ch = es.get_neqsys_chained_conditional(NumSys=(NumSysLin, NumSysLog))
+systems += [("get_neqsys_chained_conditional[%%d]" %% i, s_, NS) for i, (s_, NS) in enumerate(zip(ch.neqsystems, (NumSysLin, NumSysLog)))]
+for name, cs, NS in systems:
+    fws = cs.get_conds(xv, pv, [False] * len(ptr))
+    bws = cs.get_conds(xv, pv, [True] * len(ptr))
+    for i, ri in enumerate(ptr):
+        solid = [k for k in keys if es.substances[k].phase_idx > 0 and k in es.rxns[ri].keys()][0]
+        exp_bw = not (x[solid] < NS.small)
+        if bool(bws[i]) != exp_bw: bad.append("%%s: backward condition %%d is %%s for %%s = %%s" %% (name, i, bws[i], solid, x[solid]))
+        exp_fw = bool(es._fw_cond_factory(ri)(xv, pv))
+        if bool(fws[i]) != exp_fw: bad.append("%%s: forward condition %%d is %%s but the condition of phase-transfer reaction %%d (%%s) is %%s" %% (name, i, fws[i], ri, eq_strs[ri], exp_fw))
+for b in bad[:6]: print("MISMATCH", b)
+sys.exit(1 if bad else 0)
+"""
+
+
+def task_condsel(systems):
+    """The switching conditions INSTALLED in the conditional solver objects (pyneqsys.ConditionalNeqSys.get_conds, both builders) are, position
+    by position, the conditions of the system's phase-transfer reactions - systems with two and three sparingly soluble phases."""
+    from chempy.equilibria import EqSystem
+    from chempy._eqsys import NumSysLin, NumSysLog
+
+    res = dict(engine="Z", functions=[env.describe(EqSystem.get_neqsys_conditional_chained), env.describe(EqSystem.get_neqsys_chained_conditional),
+                                      env.describe(EqSystem._fw_cond_factory), env.describe(EqSystem._bw_cond_factory)],
+               obligations=0, discharged=0, violations=[], inconclusive=[], queries=0, paths=0, solver_s=0.0,
+               bounds="%d systems with 2-3 solid phases; all x >= 0, K > 0; both builders, NumSys=(NumSysLin, NumSysLog)" % len(systems))
+    tw = None
+    for eq_strs in systems:
+        es, Ks, keys = build(eq_strs)
+        n = len(keys)
+        x = [Real("x%d" % i) for i in range(n)]
+        pvec = [Real("p0_%d" % i) for i in range(n)] + list(Ks)
+        assum = [v.t >= 0 for v in x] + [k.t > 0 for k in Ks] + [v.t >= 0 for v in pvec[:n]]
+        ptr = es.phase_transfer_reaction_idxs()
+        sidx = []
+        for ri in ptr:
+            sidx.append([keys.index(k) for k in keys if es.substances[k].phase_idx > 0 and k in es.rxns[ri].keys()][0])
+        cc = es.get_neqsys_conditional_chained(NumSys=(NumSysLin, NumSysLog))
+        ch = es.get_neqsys_chained_conditional(NumSys=(NumSysLin, NumSysLog))
+        objs = [(cc, NumSysLin)] + list(zip(ch.neqsystems, (NumSysLin, NumSysLog)))
+
+        def fn():
+            xv = np.array(x, dtype=object)
+            pv = np.array(pvec, dtype=object)
+            out = []
+            for cs, NS in objs:
+                fws = [bool(b) for b in cs.get_conds(xv, pv, [False] * len(ptr))]
+                bws = [bool(b) for b in cs.get_conds(xv, pv, [True] * len(ptr))]
+                out.append((fws, bws))
+            direct = [bool(es._fw_cond_factory(ri)(xv, pv)) for ri in ptr]
+            return out, direct
+
+        def goal(p, twin=False):
+            if p.kind == "exc":
+                return False
+            out, direct = p.value
+            conds = []
+            for (fws, bws), (cs, NS) in zip(out, objs):
+                small = _q(NS.small)
+                for i in range(len(ptr)):
+                    conds.append(z3.BoolVal(fws[i] == direct[i]))
+                    e = x[sidx[i]].t >= small
+                    conds.append(e if bws[i] else z3.Not(e))
+            g = z3.And(*conds)
+            return z3.Not(g) if twin else g
+
+        o = explore_and_prove(fn, assum, goal, max_paths=20000, deadline_s=300)
+        res["obligations"] += o.obligations
+        res["discharged"] += o.discharged
+        res["queries"] += o.queries
+        res["paths"] += o.paths
+        res["solver_s"] += o.solver_s
+        res["inconclusive"] += o.inconclusive
+        for p, m, g in o.failed[:1]:
+            res["violations"].append(dict(key="condsel:%s" % p.kind, soft=wrapper_exc(p.value),
+                                          desc="%s x=%s K=%s -> %r" % (eq_strs, concretize(m, x), concretize(m, Ks), p.value),
+                                          replay_src=REPLAY_CONDSEL % dict(eqs=eq_strs, x=pyrepr(dict(zip(keys, concretize(m, x)))),
+                                                                           K=pyrepr(concretize(m, Ks)), p0=pyrepr(concretize(m, pvec[:n])))))
+        if tw is None:
+            ot = explore_and_prove(fn, assum, lambda p: goal(p, True), max_paths=20000, deadline_s=60, max_fail=1)
+            tw = twin_verdict(ot)
+    res["twin"] = tw
+    res["sample"] = {"system": systems[0], "x": "symbolic >= 0", "K": "symbolic > 0"}
+    res["status"] = "violation" if res["violations"] else ("inconclusive" if res["inconclusive"] else "discharged")
+    return res
+
+
 REPLAY_POST = '''
 import itertools, math
 import numpy as np
@@ -425,4 +535,12 @@ def tasks(tier, seed):
         ch = hom[i::2]
         if ch:
             ts.append(dict(id="C08.post.%02d" % i, fn="task_post", kwargs=dict(systems=ch), timeout=1200))
+    # (two dissolution-oriented solids sharing an ion - ["AgCl(s) = Ag+ + Cl-", "NaCl(s) = Na+ + Cl-"] - did not finish in 300 s: nonlinear
+    #  quotients of two coupled dissolved states; not registered)
+    multi = [["Ag+ + Br- = AgBr(s)", "Ag+ + Cl- = AgCl(s)"],
+             ["AgCl(s) = Ag+ + Cl-", "H2O = H+ + OH-", "Ag+ + Br- = AgBr(s)"]]
+    if tier != "quick":
+        multi.append(["Ag+ + Cl- = AgCl(s)", "Ag+ + Br- = AgBr(s)", "Na+ + Cl- = NaCl(s)"])
+    for i, s_ in enumerate(multi):
+        ts.append(dict(id="C08.condsel.%02d" % i, fn="task_condsel", kwargs=dict(systems=[s_]), timeout=1200))
     return ts
